@@ -6,7 +6,7 @@
      read/write, locks held with their mode) occurs in the generated skeleton: same field, same read/write,
      same set of held locks — the model does not claim a lock the source does not take;
    * [source_in_footprints]: conversely, every field access the translator found in the methods the model has
-     as threads (Get, Contains, Set, Delete, Sweep, Clear, and getCurrentPartition inside Set) is declared by
+     as threads (Get, Contains, Set — which contains the private getCurrentPartition —, Delete, Sweep, Clear) is declared by
      some pc with the same held locks (a declared write also accounts for a read) — the model does not forget
      an access.  Keys/Values/Len/Capacity/Resize are not threads of the model (notes/C08.md). *)
 From Coq Require Import List String Bool Arith.
@@ -84,7 +84,7 @@ Section Footprints.
 End Footprints.
 
 (* the methods of the source that the model has as threads *)
-Definition modelled_methods : list string := ["Get"; "Contains"; "Set"; "Delete"; "Sweep"; "Clear"; "getCurrentPartition"].
+Definition modelled_methods : list string := ["Get"; "Contains"; "Set"; "Delete"; "Sweep"; "Clear"].
 
 Definition source_faccs : list facc :=
   flat_map (fun ns => if existsb (String.eqb (fst ns)) modelled_methods
